@@ -35,13 +35,51 @@ package gnmi
 //@   ensures {C08} success-only-if-reached: err == nil ==> result0 != nil && evReached(transactionEvent) && txnCreates == old(txnCreates) + 1
 //@   ensures {C08} failure-class: evState(transactionEvent) == configapi.TransactionStatus_FAILED && !evReached(transactionEvent) ==> err != nil && result0 == nil && (transactionEvent.Transaction.Status.Failure != nil ==> grpcCodeOf(err) == codeOfFailure(transactionEvent.Transaction.Status.Failure.Type)) && (transactionEvent.Transaction.Status.Failure == nil ==> grpcCodeOf(err) == codes.Unknown)
 //@   loop 5 backedge {C08} no-wait-on-finished: !evReached(transactionEvent) && evState(transactionEvent) != configapi.TransactionStatus_FAILED
+//@   ensures {C14} refused-before-anything: md != nil && (mdGet(md, "preferred_username") != "" || mdGet(md, "name") != "" || mdGet(md, "groups") != "") && !isAdmin(mdGet(md, "groups"), envOf("ADMINGROUPS")) ==> err != nil && result0 == nil && txnCreates == old(txnCreates) && grpcCodeOf(err) == codes.Unauthenticated
 //@   ensures {C13} at-most-one-transaction: txnCreates <= old(txnCreates) + 1 && noStoreEffect()
 //@   ensures {C13} empty-request-refused: old(len(req.Update) + len(req.Replace) + len(req.Delete)) < 1 ==> err != nil && txnCreates == old(txnCreates)
+//@   ensures {C13} size-limit-respected: txnCreates > old(txnCreates) && s.gnmiSetSizeLimit > 0 ==> len(targets) == 1
 //@   ensures {C13} create-only-after-all-checks: txnCreates > old(txnCreates) ==> checkFailures == old(checkFailures)
-//@   loop 1 invariant txnCreates == old(txnCreates) && checkFailures == old(checkFailures) && noStoreEffect()
-//@   loop 2 invariant txnCreates == old(txnCreates) && checkFailures == old(checkFailures) && noStoreEffect()
-//@   loop 3 invariant txnCreates == old(txnCreates) && checkFailures == old(checkFailures) && noStoreEffect()
+//@   loop 1 invariant txnCreates == old(txnCreates) && checkFailures == old(checkFailures) && noStoreEffect() && targets != nil && targetsWF(targets) && overrides != nil && overrides.Overrides != nil
+//@   loop 2 invariant txnCreates == old(txnCreates) && checkFailures == old(checkFailures) && noStoreEffect() && targets != nil && targetsWF(targets) && overrides != nil && overrides.Overrides != nil
+//@   loop 3 invariant txnCreates == old(txnCreates) && checkFailures == old(checkFailures) && noStoreEffect() && targets != nil && targetsWF(targets) && overrides != nil && overrides.Overrides != nil
 //@   loop 4 invariant txnCreates == old(txnCreates) && checkFailures == old(checkFailures) && noStoreEffect()
 //@   loop 5 invariant txnCreates == old(txnCreates) + 1 && checkFailures == old(checkFailures) && noStoreEffect()
 //@   loop 6 invariant txnCreates == old(txnCreates) + 1 && checkFailures == old(checkFailures) && noStoreEffect()
 //@   loop 7 invariant txnCreates == old(txnCreates) + 1 && checkFailures == old(checkFailures) && noStoreEffect()
+
+// The effective path of an operation: the prefix followed by the operation's own path.
+//@ spec effPath(prefix *gnmi.Path, p *gnmi.Path) string = ite(strPathOf(prefix) != "/", strPathOf(prefix) + strPathOf(p), strPathOf(p))
+//@ spec resolvedTarget(idPrefix string, id configapi.TargetID) string = ite(len(id) > 0, id, idPrefix)
+
+// every registered target is keyed by its own identifier
+//@ spec targetsWF(targets map[configapi.TargetID]*targetInfo) bool = forall t string :: (t in targets) ==> targets[t] != nil && allocated(targets[t]) && targets[t].targetID == t && targets[t].plugin != nil && targets[t].updates != nil
+
+//@ func (*Server).getTargetInfo(s, ctx, targets, overrides, idPrefix, id) (target, err)
+//@   props C13, C05
+//@   modifies mapOf(targets), mapOf(overrides.Overrides), lastTopoGetOK, lastGetPluginOK
+//@   requires s != nil && targets != nil && overrides != nil && overrides.Overrides != nil && targetsWF(targets)
+//@   ensures {C13} targets-stay-well-formed: targetsWF(targets)
+//@   ensures {C13} prefix-target-wins: err == nil ==> target != nil && target.targetID == resolvedTarget(idPrefix, id) && (resolvedTarget(idPrefix, id) in targets) && targets[resolvedTarget(idPrefix, id)] == target
+//@   ensures {C13,C05} unknown-target-or-model-refused: err == nil && !old(resolvedTarget(idPrefix, id) in targets) ==> lastTopoGetOK && lastGetPluginOK && target.plugin != nil
+//@   ensures {C13} refusal-registers-nothing: err != nil ==> target == nil && domOf(targets) == old(domOf(targets)) && valsOf(targets) == old(valsOf(targets))
+//@   ensures {C13} other-targets-untouched: forall t string :: t != resolvedTarget(idPrefix, id) ==> (t in targets) == old(t in targets) && targets[t] == old(targets[t])
+
+//@ func (*Server).doDelete(s, prefix, gnmiPath, target) (err)
+//@   props C13
+//@   modifies target.removes, checkFailures
+//@   requires s != nil && target != nil && target.plugin != nil
+//@   ensures {C13} delete-lands-on-effective-path: err == nil ==> len(target.removes) == old(len(target.removes)) + 1 && (target.removes[len(target.removes) - 1] == effPath(prefix, gnmiPath) || (hasPrefix(effPath(prefix, gnmiPath), target.removes[len(target.removes) - 1] + "/") && !contains(substr(effPath(prefix, gnmiPath), len(target.removes[len(target.removes) - 1]) + 1, len(effPath(prefix, gnmiPath))), "/")))
+//@   ensures {C13} refused-delete-records-nothing: err != nil ==> len(target.removes) == old(len(target.removes)) && arrOf(target.removes) == old(arrOf(target.removes)) && checkFailures == old(checkFailures) + 1
+//@   ensures {C13} accepted-delete-passed-checks: err == nil ==> checkFailures == old(checkFailures)
+//@   ensures {C13} delete-touches-no-update: domOf(target.updates) == old(domOf(target.updates)) && valsOf(target.updates) == old(valsOf(target.updates))
+
+//@ func (*Server).doUpdateOrReplace(s, ctx, prefix, u, target) (err)
+//@   props C13
+//@   modifies mapOf(target.updates), checkFailures, getPathValuesCalls, lastGetPathValuesPrefix
+//@   requires s != nil && target != nil && target.plugin != nil && target.updates != nil && u != nil
+//@   ensures {C13} update-lands-on-effective-path: err == nil && getPathValuesCalls == old(getPathValuesCalls) ==> (effPath(prefix, u.Path) in target.updates) && (forall k string :: k != effPath(prefix, u.Path) ==> (k in target.updates) == old(k in target.updates))
+//@   ensures {C13} json-update-rooted-at-effective-path: getPathValuesCalls > old(getPathValuesCalls) ==> lastGetPathValuesPrefix == effPath(prefix, u.Path)
+//@   ensures {C13} refused-update-records-nothing: err != nil ==> domOf(target.updates) == old(domOf(target.updates)) && checkFailures > old(checkFailures)
+//@   ensures {C13} accepted-update-passed-checks: err == nil ==> checkFailures == old(checkFailures)
+//@   ensures {C13} update-touches-no-delete: len(target.removes) == old(len(target.removes)) && arrOf(target.removes) == old(arrOf(target.removes))
